@@ -255,7 +255,12 @@ class CHECK(Check):
                   "C14.src_*_eq_model. Full frame model: any metric that is weight-multiplicative on slices gives the same "
                   "by_group (index incl. re-indexed empty combinations, cells) and overall on weighted and replicated rows, any "
                   "number of features and per-sample parameters (metricframe_weight_is_multiplicity); instances for the pool's "
-                  "weighted means and the two-parameter metric sum(a*ids).")
+                  "weighted means, the two-parameter metric sum(a*ids) and (review) the four confusion-matrix rates "
+                  "(metricframe_rates_weight_is_multiplicity); scale invariance in the full frame model with the IEEE quotient "
+                  "(metricframe_pool_scale_invariant); the named-metric bases, worst-case builtins and ratio_sub_one of the "
+                  "hand-written model are proved equal to the lifted text (named_bases_are_lifted, eodds_worst_is_lifted, "
+                  "subOne_is_lifted); the dict-frame metrics are also evaluated by the full frame model (frame.eval) on weighted "
+                  "and replicated rows against the oracle.")
     design_ref = "DESIGN.md section 4, C11"
     quick_cases = 200
     thorough_cases = 6000
@@ -268,7 +273,9 @@ class CHECK(Check):
             "docstring; six base metrics on every variant, a dict MetricFrame (3 of 6 metrics) on W/R, a callable MetricFrame on "
             "W/S3/S4/N/O, a dict MetricFrame whose metrics get different weight vectors, 2 named fairness metrics on W/R and 1 "
             "on S3/S4/N/O, and a callable MetricFrame with TWO sample parameters (a = k, ids = 8*score+1; metric sum(a*ids)) on "
-            "W/R; distinct = distinct (data, weights, layout, plan); non-trivial = at least one weight > 1")
+            "W/R; distinct = distinct (data, weights, layout, plan); non-trivial = at least one weight > 1. Not generated (stated "
+            "restrictions): scalings other than x3 and /4 (exact in binary64, so the relations are bit-comparable), label "
+            "encodings other than {0,1}/{-1,1}, more than one sensitive column for the named metrics, zero weights")
     explanation = ("theorems over the Lean models Weights+BaseMetrics (all inputs); correspondence: real functions on the weight "
                    "variants vs each other (property relations), vs an exact replicate-and-count Fraction oracle and vs the "
                    "compiled driver (values within 4e-14 — measured max 4.5e-16 —, relations between variants within one ulp — measured 0 —, "
